@@ -137,6 +137,13 @@ def r1_r2(ctx: Ctx, roles) -> None:
         else:
             ok = ok and not may
     ctx.ob("C07.R2", closer, "callback fires iff not already closed, callback present and was connected", ok, fmt_table(variables, table), node=call)
+    # nothing between CLOSED and the callback may raise: a completion of an already-done future would
+    # (InvalidStateError) abandon the closer after CLOSED is set - the callback would then never fire
+    from ..futures import unguarded_in_closure
+
+    offenders, n_sites = unguarded_in_closure(ctx, res, closer)
+    ctx.count("C07.R2.completions", n_sites, 4, "future completions reachable from the closer")
+    ctx.ob("C07.R2", closer, "every future completed by the closer (and what it calls) is tested not-done first", not offenders, "; ".join(f"{f.qualname}: {norm(c)[:50]} ({why})" for f, c, why in offenders[:3]) + (": completing a done future raises InvalidStateError after CLOSED was set, the stop callback is never called" if offenders else ""))
     # argument is the graceful marker
     arg_ok = len(call.args) == 1 and isinstance(call.args[0], ast.Attribute) and call.args[0].attr == "_expected_disconnect" and norm(call.args[0].value) == "self"
     ctx.ob("C07.R3", closer, "callback argument is the graceful marker", arg_ok, f"called with {[norm(a) for a in call.args]}", node=call)
